@@ -693,7 +693,14 @@ pub fn run_programs_at(
         let head: String = f.msg.lines().next().unwrap_or("").chars().take(140).collect();
         report.violation(
             format!("{}|{}{}", f.program.name, head, if f.reproduced { "" } else { " [flaky-schedule]" }),
-            format!("program {}\nschedule (thread ids) {:?}\nreproduced on replay: {}\n{}", f.program.describe(), f.schedule, f.reproduced, f.msg),
+            format!(
+                "program {}\nschedule (thread ids{}) {:?}\nreproduced on replay: {}\n{}",
+                f.program.describe(),
+                if f.schedule.len() > 200 { format!(", first 200 of {}; the replay file has all", f.schedule.len()) } else { String::new() },
+                &f.schedule[..f.schedule.len().min(200)],
+                f.reproduced,
+                f.msg
+            ),
             rv,
         );
     }
